@@ -25,5 +25,7 @@ def run(ctx):
     failures += progflow.judge(ctx, progflow.scale_cases(ctx, "C03"), "scale")
     # every ordered pair of feature snippets x every composition mode (spec/FamPairs.tla): the pairs whose highest property is this one
     failures += progflow.judge(ctx, progflow.pair_cases(ctx, "C03"), "pairs")
+    # legal spellings the renderer never produces (spec/FamSyn.tla): the TEXT is run, the program it must mean is validated
+    failures += progflow.judge(ctx, progflow.syn_cases(ctx, "C03"), "syn")
     progflow.report(ctx, failures)
     return ctx.finish(rule=RULE, assumptions=ASSUME)
